@@ -66,3 +66,17 @@ add("C10", "model_checking", "exhaustive enumeration of make_trainable call sequ
     "bit-unchanged; single calls also compare set vs data_set vs trainable simulations and write_trainables.",
     "Sharing rule per view kind taken from the documentation; two fixed modules; histories deeper than 3 not explored.",
     "DESIGN.md §7 C10")
+
+add("C12", "exploration", "bounded-exhaustive enumeration of heterogeneous assemblies (all branches/cells/networks over small constituent alphabets) with table-concatenation and alone-vs-assembled differential oracles",
+    "All branches up to length 2-3 over a 5-compartment alphabet, all cells with up to 3 branches over a 3-branch alphabet and every parent vector, and all ordered pairs/triples "
+    "of a 4-cell catalogue are assembled with the real constructors; the assembled table must be the concatenation of the constituents (NaN/False where a channel is absent) and "
+    "three eager steps on every accepting backend must equal the parts simulated alone; sibling and cell permutations must only permute results.",
+    "Differential oracles inside the implementation (no expected values); constituents drawn from a fixed alphabet; initial voltages below -20 mV.",
+    "DESIGN.md §7 C12")
+
+add("C17", "exploration", "exhaustive evaluation of every transform configuration over float lattices containing all special points and ulp-neighbourhoods (thorough: every float32 in [-100,100]) against bounds/monotonicity/conditioning-aware round-trip rules",
+    "222 transform configurations (singles, all ordered chains, all masks) x lattices on [-1e6,1e6] with ±64-ulp neighbourhoods of 0, ±20 and saturation points in f64 and f32, "
+    "ParamTransform over all assignments of transforms to three pytree shapes, eager vs jit. Each item also runs a numerically stable reference twin through the same rules as a "
+    "guard against an unsatisfiable oracle.",
+    "Float64 points between lattice points away from special points are not visited; tolerance rule of DESIGN §5 (K=256) with a flush-to-zero floor.",
+    "DESIGN.md §7 C17")
